@@ -11,6 +11,67 @@ def shape(toks):
     return "+".join(kinds) + ("/chained" if big else "")
 
 
+def chain_item(r):
+    """a pattern that the engine splits into 3..4 chained pieces (jumps above YR_STRING_CHAINING_THRESHOLD), and buffers with
+    several candidate heads, several occurrences of each middle piece at gaps on and around the jump bounds, and tails"""
+    k = r.range(3, 4)
+    pieces, jumps = [], []
+    used = set()
+    for pi in range(k):
+        while True:
+            lit = bytes([r.choice(b"ABCDEFGH") + 0 for _ in range(r.range(2, 4))])
+            if lit not in used and not any(lit in u or u in lit for u in used):
+                used.add(lit)
+                break
+        pieces.append(lit)
+    for ji in range(k - 1):
+        c = r.below(6)
+        hi = r.choice([201, 202, 230, 250, 300, 420, 700, 2000])
+        if c == 0:
+            jumps.append((r.range(0, 40), None))
+        elif c == 1:
+            jumps.append((hi, hi))
+        else:
+            jumps.append((r.choice([0, 0, 1, 5, 50, 150, hi - 1]), hi))
+    toks = []
+    for pi in range(k):
+        for bi, b in enumerate(pieces[pi]):
+            toks.append(("any",) if (bi == 1 and len(pieces[pi]) > 3 and r.chance(1, 5)) else ("b", b))
+        if pi < k - 1:
+            toks.append(("jump", jumps[pi][0], jumps[pi][1]))
+    bufs = []
+    for _ in range(3):
+        size = r.choice([700, 1200, 1800, 2600])
+        b = bytearray(r.choice(b".,:") for _ in range(size))
+
+        def put(pos, lit):
+            if 0 <= pos and pos + len(lit) <= size:
+                b[pos:pos + len(lit)] = lit
+                return True
+            return False
+
+        def gap(j):
+            lo, hi = j
+            if hi is None:
+                return r.choice([lo, lo + 1, max(lo - 1, 0), lo + r.below(300)])
+            return r.choice([lo, max(lo - 1, 0), hi, hi + 1, max(hi - 1, 0), (lo + hi) // 2, lo + r.below(hi - lo + 1), r.below(120)])
+        for hd in range(r.range(1, 3)):
+            pos = r.below(size // 2)
+            put(pos, pieces[0])
+            ends_ = [pos + len(pieces[0])]
+            for pi in range(1, k):
+                nxt = []
+                for e in ends_[:3]:
+                    for _rep in range(r.range(1, 3) if pi < k - 1 else r.range(0, 2)):
+                        q = e + gap(jumps[pi - 1])
+                        if put(q, pieces[pi]):
+                            nxt.append(q + len(pieces[pi]))
+                ends_ = nxt
+        bufs.append(bytes(b))
+    return ("{ %s }" % regen.hex_print(toks), regen.hex_sexp(toks), bufs,
+            {"shape": "chain%d%s" % (k, "+unbounded" if any(j[1] is None for j in jumps) else ""), "cmd": "hexf", "pat": regen.hex_pat(toks)})
+
+
 def run(chk):
     tier = chk.tier
     ok, log, st = vlib.proof_obligations(chk, PROPS)
@@ -21,7 +82,6 @@ def run(chk):
     n = 140 if tier == "quick" else 2500
     items = []
     nbig = 0
-    maxbig = 8 if tier == "quick" else 60
     for i in range(n):
         r = chk.rng.fork()
         g = regen.HexGen(r.fork())
@@ -31,17 +91,13 @@ def run(chk):
         decl = "{ %s }" % txt
         big = any(t[0] == "jump" and t[2] is not None and t[2] >= 190 for t in toks)
         unbounded = any(t[0] == "jump" and t[2] is None for t in toks)
-        # the executable reference is cubic in the jump size (Peano positions): patterns with jumps above the chaining
-        # threshold get two buffers just above it and their number is capped; unbounded jumps get small buffers only
-        if big and (nbig >= maxbig or unbounded):
-            toks = [t if not (t[0] == "jump" and t[2] is not None and t[2] >= 190) else ("jump", t[1] % 4, t[1] % 4 + 3) for t in toks]
-            txt = regen.hex_print(toks)
-            sexp = regen.hex_sexp(toks)
-            decl = "{ %s }" % txt
-            big = False
+        # the expression reference unfolds jumps over Peano positions (cubic in the jump size): patterns with jumps above the
+        # chaining threshold go through the interval-based reference (Spec/HexSpec.v, proved exact as well), a third of the
+        # others too
+        fast = big or r.chance(1, 3)
         if big:
             nbig += 1
-        sizes = [r.choice([4, 16, 60]) for _ in range(4)] if not big else [r.choice([215, 240, 270]) for _ in range(2)]
+        sizes = [r.choice([4, 16, 60]) for _ in range(4)] if not big else [r.choice([215, 240, 270, 460]) for _ in range(3)]
         bufs = []
         for sz in sizes:
             b = bytearray(recheck.make_buffer(r, [sexp], sz, regen.ALPHA + b"\0\xff"))
@@ -60,7 +116,13 @@ def run(chk):
                             if r.chance(1, 2) and q + len(tail) + 3 + len(tail) <= sz:
                                 b[q + len(tail) + 3:q + len(tail) + 3 + len(tail)] = tail      # a second candidate tail
             bufs.append(bytes(b))
-        items.append((decl, sexp, bufs, {"shape": shape(toks)}))
+        meta = {"shape": shape(toks)}
+        if fast:
+            meta.update(cmd="hexf", pat=regen.hex_pat(toks))
+        items.append((decl, sexp, bufs, meta))
+    nchain = 30 if tier == "quick" else 500
+    for i in range(nchain):
+        items.append(chain_item(chk.rng.fork()))
     agree, total, nontriv, rejected = recheck.compare(chk, model, hscan, items, "hex")
     dist = {}
     for it in items:
@@ -70,7 +132,8 @@ def run(chk):
              token_kinds=dist,
              rule="hex strings from a generator-owned AST (bytes, ??, nibble masks, ~ negations, jumps [n] [n-m] [n-] incl. bounds around the "
                   "200-byte chaining threshold, nested alternatives) x buffers with planted members, for chained patterns head/tail pieces at gaps "
-                  "min-1/min/max-1/max/max+1 and a second candidate tail; offsets must equal the reference's, lengths must be admissible; "
+                  "min-1/min/max-1/max/max+1 and a second candidate tail; 3- and 4-piece chains of literal pieces with several candidate heads "
+                  "and repeated middle pieces on buffers up to 2600 bytes (interval-based reference); offsets must equal the reference's, lengths must be admissible; "
                   "distinct = (token kinds, #matches class, match at 0)")
     chk.sample({"string": items[0][0], "sexp": items[0][1], "buffer_hex": hx(items[0][2][0])})
     chk.assumptions += ["buffers shorter than YR_RE_SCAN_LIMIT per unchained piece"]
